@@ -38,6 +38,7 @@ fn rerun(w: &Value) -> Option<Outcome> {
         "c12_header" => Some(c12::run_header(w["input"]["text"].as_str()?)),
         "c12_yacc" => Some(c12::run_yacc(w["input"]["text"].as_str()?)),
         "c12_lex" => Some(c12::run_lex(w["input"]["text"].as_str()?)),
+        "c20_u8_table" => Some(c20::run_u8_table(w["input"]["kind"].as_str()?, w["input"]["n"].as_u64()? as usize)),
         "c20_u8" => Some(c20::run_u8(w["input"]["kind"].as_str()?, w["input"]["n"].as_u64()? as usize)),
         "c03_expect" => Some(c03::run(w["input"]["body"].as_str()?, w["input"]["expect"].as_u64().map(|x| x as usize), w["input"]["expectrr"].as_u64().map(|x| x as usize))),
         "c10_order" => { let d: Vec<String> = w["input"]["decls"].as_array()?.iter().filter_map(|x| x.as_str().map(|y| y.to_string())).collect(); let pm: Vec<usize> = w["input"]["perm"].as_array()?.iter().filter_map(|x| x.as_u64().map(|y| y as usize)).collect(); Some(c10::run_order(&d, w["input"]["body"].as_str()?, &pm)) }
@@ -77,7 +78,7 @@ fn search(unit: &str, tag: &str, tier: &str) -> Option<Value> {
         "c03_resolve" | "c03_prodprec" => c03r::search(tag, tier),
         "c17_firsts" | "c17_follows" | "c17_haspath" => c17::search(unit, tag, tier),
         "c16_new" | "c16_codec" => c16::search(tag, tier),
-        "c20_grammar" => c20::search(tag, tier),
+        "c20_grammar" | "c20_states" => c20::search(tag, tier),
         _ => None,
     }
 }
